@@ -340,7 +340,26 @@ pub fn gen_two(seed: u64, index: u64) -> ApplyCase {
         hunks.push(HunkSpec { old_start: stated, new_start: stated, lines });
     }
     if r.chance(3, 4) { hunks.sort_by_key(|h| h.old_start); }
-    let reverse = false;
+    // a quarter of the cases are written the other way round and applied with -R: the file is then matched
+    // against the '+' side of the text
+    let reverse = r.chance(1, 4);
+    if reverse {
+        for h in hunks.iter_mut() {
+            for l in h.lines.iter_mut() {
+                l.0 = match l.0 { b'-' => b'+', b'+' => b'-', t => t };
+            }
+            // keep removals before additions inside each change block, as diff prints them
+            let mut k = 0;
+            while k < h.lines.len() {
+                if h.lines[k].0 != b' ' {
+                    let start = k;
+                    while k < h.lines.len() && h.lines[k].0 != b' ' { k += 1; }
+                    h.lines[start..k].sort_by_key(|l| if l.0 == b'-' { 0 } else { 1 });
+                } else { k += 1; }
+            }
+            std::mem::swap(&mut h.old_start, &mut h.new_start);
+        }
+    }
     ApplyCase { gen: "two".to_string(), file: Some(join(&file)), mode: None,
         steps: vec![Step { patch: render_plain(&hunks), reverse }], fuzz: *r.pick(&[0usize, 0, 1, 2]), expect: None }
 }
